@@ -69,5 +69,23 @@ PLANS['C16'] = Plan(
                  'blur and createPeaks: bounded only'],
 )
 
+AE = 'src/alignment/aligner.py::AlignerEngine.'
+AP = 'src/alignment/alignment_position.py::AlignedPair.'
+PLANS['C12'] = Plan(
+    'C12', [AE + '__getReferencePositionsWithinRange', AE + '__getAlignedPairs', AP + '__deduplicateByKey', AP + 'deduplicate',
+            'src/correlation/optical_map.py::OpticalMap.getPositionsWithSiteIds'], 'other',
+    "Proved for all inputs (deductive, each function against its contract, callers against callee contracts): the search window is exactly the "
+    "reference labels with start-d <= position <= end+d (inclusive); the candidate list is exactly the (reference, query) pairs within maxDistance of "
+    "the seed diagonal (inclusive) with offset = query position - (reference position - seed), in (reference, query) order (nested loops over "
+    "dropwhile/takewhile, ghost row tables); __deduplicateByKey keeps per key the nearest candidate, first among ties, keys strictly increasing, every key "
+    "represented (sorted/groupby/min assumed); deduplicate (two passes) is one-to-one on both label numbers and keeps mutually strictly nearest "
+    "candidates; label numbering and strand mirroring of getPositionsWithSiteIds. BOUNDED, not proved: the composition in AlignerEngine.align "
+    "(unpaired complement, final sort, order preservation) is checked on the real function over an exhaustive small lattice incl. ties, coincident labels, "
+    "labels exactly at maxDistance, empty windows, both strands and fragments with label-number offsets.",
+    bounded=_lazy('bcheck.c12', 'bounded'), replay=_lazy('bcheck.c12', 'replay'),
+    technique='deductive (own VC generator + z3) for window, candidates, de-duplication, numbering; bounded exhaustive lattice for the composed AlignerEngine.align',
+    assumptions=['AlignerEngine.align composition (unpaired complement, final sorted(chain(...)), order preservation): bounded only'],
+)
+
 NOT_APPLICABLE = {}
 FIX_COMMITS = ['a1f5353']
